@@ -97,8 +97,12 @@ impl<L: Language> RuleRegistration<L> {
     Ok(())
   }
 
-  pub(crate) fn insert_rewriter(&self, id: &str, rewriter: RuleCore<L>) {
-    self.rewriters.insert(id, rewriter).expect("should work");
+  pub(crate) fn insert_rewriter(
+    &self,
+    id: &str,
+    rewriter: RuleCore<L>,
+  ) -> Result<(), ReferentRuleError> {
+    self.rewriters.insert(id, rewriter)
   }
 
   pub(crate) fn get_local_util_vars(&self) -> HashSet<&str> {
